@@ -7,11 +7,39 @@ From Coq Require Import String.
 From Coq Require Import List NArith Bool.
 From Wbxml Require Import Model.Codec Model.TablesDefs Gen.TablesData Model.Parser Model.Spec
      Proofs.ParserProofsBase Proofs.ParserProofsStr Proofs.ParserProofsAttr Proofs.ParserProofsElt Proofs.ParserProofsDoc
-     Proofs.ParserProofsTyped Proofs.ParserProofsStrict3.
+     Proofs.ParserProofsTyped Proofs.ParserProofsStrict3 Proofs.ParserProofsWv.
 Import ListNotations.
 Local Open Scope N_scope.
 
-(* MAIN THEOREM, for every table (no hypothesis on the tables is needed: specification and parser both take
+(* MAIN THEOREM — FULL, unconditional (every table, every well-formed document, no premise):
+   the parser delivers exactly the events the specification assigns to the abstract document.
+   (The theorems below named _partial / _non_wv are the earlier, weaker forms, kept for reference: their
+   premise typed_wv_agree is now a theorem, C04_wv_typed_decoders.) *)
+Theorem C04_parser_reports_denotation : forall (tbl : list lang) (d : wdoc) (evs : list event),
+  denote tbl d = Some evs ->
+  parse tbl (S (length (serialize d))) (serialize d) = POk evs.
+Proof.
+  intros tbl d evs. apply (parse_denote tbl); [|exact typed_datetime_agree_proved].
+  intros l _ _. exact typed_wv_agree_proved.
+Qed.
+Print Assumptions C04_parser_reports_denotation.
+
+Theorem C04_wf_documents_parse : forall tbl d, wf tbl d ->
+  exists evs, denote tbl d = Some evs /\ parse tbl (S (length (serialize d))) (serialize d) = POk evs.
+Proof.
+  intros tbl d Hwf. unfold wf in Hwf. destruct (denote tbl d) as [evs|] eqn:E; [|congruence].
+  exists evs. split; [reflexivity|].
+  apply (parse_denote tbl); [|exact typed_datetime_agree_proved|exact E]. intros l _ _. exact typed_wv_agree_proved.
+Qed.
+Print Assumptions C04_wf_documents_parse.
+
+(* the Wireless Village opaque integer / date-time decoders agree with their specification *)
+Theorem C04_wv_typed_decoders : forall cur d o, bytes_okb d = true ->
+  spec_opaque (opaque_kind 2301 cur) d = Some o -> decode_wv_content cur d = POk o.
+Proof. exact typed_wv_agree_proved. Qed.
+Print Assumptions C04_wv_typed_decoders.
+
+(* EARLIER FORM, for every table (no hypothesis on the tables is needed: specification and parser both take
    the first row that matches, so a table change cannot break it) and every well-formed document: the parser,
    given one unit of fuel more than the length of the document, delivers exactly the events the specification
    assigns to the abstract document: header (charset, language), elements with token and literal tags under the
